@@ -158,6 +158,10 @@ func (c *scriptConn) Read(p []byte) (int, error) {
 			c.stalled = true
 			c.events = append(c.events, "STALL")
 		}
+		if len(c.written) > 0 {
+			// the reply is out, the client sits waiting for the server to hang up
+			c.events = append(c.events, "WAIT-FOR-CLIENT-AFTER-REPLY")
+		}
 		return 0, errors.New("i/o timeout (the client never closed its side)")
 	}
 	return n, err
